@@ -106,14 +106,20 @@ class Evolver:
                 return name
         raise HarnessError("cannot find a fresh property name")
 
-    def simple_type(self, depth: int = 0, allow_literal: bool = True) -> dict:
+    def simple_type(self, depth: int = 0, allow_literal: bool = True, force: Optional[str] = None) -> dict:
         """type grammar for new properties (no general unions)."""
         kinds = ["base", "base", "ref-struct", "ref-enum", "ref-alias"]
         if depth < 2:
             kinds += ["array", "map", "tuple", "ornull"]
             if allow_literal:
                 kinds += ["literal"]
-        k = self.pick(kinds)
+        k = force or self.pick(kinds)
+        if k in ("ornull-first", "ornull-last"):
+            inner = self.simple_type(depth + 1, allow_literal)
+            while inner["kind"] == "or":
+                inner = self.simple_type(depth + 1, allow_literal)
+            items = [inner, {"kind": "base", "name": "null"}]
+            return {"kind": "or", "items": items if k == "ornull-last" else items[::-1]}
         if k == "base":
             return {"kind": "base", "name": self.pick(BASES)}
         if k == "ref-struct":
@@ -147,9 +153,12 @@ class Evolver:
             return {"kind": "literal", "value": {"properties": props}}
         raise ValueError(k)
 
-    def new_property(self, local: set, depth: int = 0, allow_literal: bool = True) -> dict:
-        p: Dict[str, Any] = {"name": self.fresh_prop_name(local), "type": self.simple_type(depth, allow_literal)}
-        if self.draw(st.booleans()):
+    def new_property(self, local: set, depth: int = 0, allow_literal: bool = True, force: Optional[str] = None,
+                     optional: Optional[bool] = None) -> dict:
+        p: Dict[str, Any] = {"name": self.fresh_prop_name(local), "type": self.simple_type(depth, allow_literal, force)}
+        if optional is None:
+            optional = self.draw(st.booleans())
+        if optional:
             p["optional"] = True
         if self.draw(st.integers(0, 4)) == 0:
             self.mark(p)
@@ -240,7 +249,26 @@ class Evolver:
         self.new_structs += [mid, leaf]
         self.edits.append({"edit": "E8-override-chain", "base": b, "property": q["name"], "type": nt, "mid": mid, "leaf": leaf})
 
-    def e_new_property(self) -> None:
+    FOCI = ["ornull-first", "ornull-last", "literal", "tuple", "map", "array", "ref-enum", "ref-alias", "ref-struct", "base",
+            "override-chain", "keyword-name", "message", "enum-value", "remove-optional", "new-structure"]
+
+    def e_focus(self, focus: str) -> None:
+        """one edit that is guaranteed to exercise the named production (generation floor of a run)."""
+        if focus == "override-chain":
+            return self.e_override_chain()
+        if focus == "message":
+            return self.e_new_message()
+        if focus == "enum-value":
+            self.e_new_enum()
+            return self.e_new_enum_value()
+        if focus == "remove-optional":
+            return self.e_remove_optional()
+        if focus == "new-structure":
+            return self.e_new_structure()
+        return self.e_new_property(force=None if focus == "keyword-name" else focus, keyword=(focus == "keyword-name"),
+                                   optional=False if focus.startswith("ornull") else None)
+
+    def e_new_property(self, force: Optional[str] = None, keyword: bool = False, optional: Optional[bool] = None) -> None:
         cands = [s for s in self.doc["structures"] if not s["name"].startswith("_") and s["name"] != "LSPObject"]
         s = self.pick(cands)
         m = Model(self.doc)
@@ -249,7 +277,11 @@ class Evolver:
         for other in self.doc["structures"]:
             if s["name"] in m.ancestors(other["name"]):
                 local |= {p["name"] for p in m.flat_props(other["name"])}
-        p = self.new_property(local)
+        p = self.new_property(local, force=force, optional=optional)
+        if keyword:
+            free = [k for k in self.kw_names if k not in self.taken_props and k not in local]
+            if free:
+                p["name"] = self.pick(free)
         s["properties"].append(p)
         self.keep_inhabitable([p])
         self.edits.append({"edit": "E2-new-property", "structure": s["name"], "property": p["name"], "type": p["type"], "optional": bool(p.get("optional"))})
@@ -374,7 +406,9 @@ class Evolver:
         s["properties"] = [q for q in s["properties"] if q is not p]
         self.edits.append({"edit": "E7-remove-optional", "structure": s["name"], "property": p["name"]})
 
-    def run(self, n_edits: int) -> None:
+    def run(self, n_edits: int, focus: Optional[str] = None) -> None:
+        if focus:
+            self.e_focus(focus)
         table = [
             ("E1", self.e_new_structure), ("E1", self.e_new_structure), ("E2", self.e_new_property), ("E2", self.e_new_property),
             ("E3", self.e_new_enum), ("E4", self.e_new_enum_value), ("E5", self.e_new_message), ("E5", self.e_new_message),
@@ -386,14 +420,14 @@ class Evolver:
             self.pick(table)[1]()
 
 
-def evolved(base: dict, min_edits: int = 0, max_edits: int = 6, allow: Optional[set] = None) -> st.SearchStrategy:
+def evolved(base: dict, min_edits: int = 0, max_edits: int = 6, allow: Optional[set] = None, focus: Optional[str] = None) -> st.SearchStrategy:
     """strategy of (document, edit list); the identity (no edit) is included when min_edits == 0."""
 
     @st.composite
     def _s(draw):
         n = draw(st.integers(min_edits, max_edits))
         ev = Evolver(base, draw, allow)
-        ev.run(n)
+        ev.run(n, focus)
         if not schema_valid(ev.doc):
             raise HarnessError(f"evolve produced a schema-invalid document: {schema_errors(ev.doc)}; edits {ev.edits}")
         return ev.doc, ev.edits
